@@ -84,6 +84,14 @@ def run(ctx):
         ctx.evaluations += 1
         if json.loads(o)[0] == "ok" and len(ctx.violations) < 40:
             ctx.report("Check accepts a schema whose example violates its own rule %s (a parameter beyond 2^64 is read modulo 2^64): %r" % (rule, t[:200]), "c04c:" + t, {"schema": t, "violated_rule": rule}, case=t)
+    # an or rule-set describing an array cannot have items: an item count it cannot meet must be refused, not accepted with an example matching no alternative
+    rs = ['[] // {or: [{type: "array", minItems: 1}, {type: "string"}]}', '[] // {or: [{type: "string"}, {type: "array", minItems: 2, maxItems: 3}]}',
+          '{\n  "k": [] // {or: [{type: "array", minItems: 1}, {type: "null"}]}\n}']
+    for t, o in zip(rs, vc.impl(["schema"], [json.dumps({"schema": t, "ops": [["check"], ["validate", "[]" if t.startswith("[") else '{"k": []}']]}) for t in rs])):
+        r = json.loads(o)
+        ctx.evaluations += 1
+        if r[0] == "ok" and len(ctx.violations) < 40:
+            ctx.report("Check accepts a schema whose example violates its own rule minItems (inside an or rule-set): %r" % t, "c04c:" + t, {"schema": t, "violated_rule": "minItems"}, case=t)
     ctx.extra["huge_parameter_cases"] = len(huge)
     import os
     cf = os.path.join(vc.ROOT, "corpus", "C04", "fixed.json")
